@@ -119,6 +119,9 @@ class Parser:
                 self.pos += 1
                 rule_doc.append(self.eat(TokenKind.COMMENT_TEXT).value)
 
+            if self.current().kind == TokenKind.EOI:
+                break  # Doc comments after the last rule document nothing.
+
             identifier = self.eat(TokenKind.IDENTIFIER)
             self.eat(TokenKind.ASSIGN_OP)
             modifier = self.parse_modifier()
